@@ -36,6 +36,9 @@ func (t *Task) OwnerForVerif() string {
 	return t.GetEnvironmentId().String()
 }
 
+// LockedForVerif: what KillTasks / Cleanup / acquireTasks take for "owned" (parent role plus agent and executor id).
+func (t *Task) LockedForVerif() bool { return t != nil && t.IsLocked() }
+
 // ActiveForVerif: the core has seen the task running (status ACTIVE).
 func (t *Task) ActiveForVerif() bool {
 	if t == nil {
